@@ -121,6 +121,8 @@ type CertSpec struct {
 	Expired    bool     `json:"expired,omitempty"`    // notAfter lies in the past (2025-06-01)
 	SKIHex     string   `json:"ski_hex,omitempty"`    // explicit subjectKeyIdentifier (overrides the computed one)
 	NoEKU      bool     `json:"noeku,omitempty"`
+	// AnyEKU: clientAuth + anyExtendedKeyUsage (permits every usage in chain building, but is not id-kp-OCSPSigning)
+	AnyEKU bool `json:"anyeku,omitempty"`
 }
 
 // Cert is an issued certificate with its key.
@@ -230,6 +232,9 @@ func Issue(spec CertSpec, parent *Cert) *Cert {
 		tpl.ExtKeyUsage = []x509.ExtKeyUsage{x509.ExtKeyUsageOCSPSigning}
 	} else if !spec.IsCA && !spec.NoEKU {
 		tpl.ExtKeyUsage = []x509.ExtKeyUsage{x509.ExtKeyUsageClientAuth}
+		if spec.AnyEKU {
+			tpl.ExtKeyUsage = append(tpl.ExtKeyUsage, x509.ExtKeyUsageAny)
+		}
 	}
 	signerCert := tpl
 	signerKey := key
